@@ -50,6 +50,7 @@ ZERO_HAZARD_CALLS = ('buffered', 'buffer_unordered', 'windows', 'chunks')
 ZERO_HAZARD_FIELDS = {
     ('bitar::chunker::config::FilterConfig', None, 'window_size'), ('bitar::chunker::config::FilterConfig', None, 'max_chunk_size'),
     ('bitar::chunker::config::FilterBits', None, '0'), ('bitar::chunker::config::Config', 'FixedSize', '0'),
+    ('bitar::archive::Archive', None, 'chunk_hash_length'),
 }
 MUST_VALIDATE_FIELDS = {
     ('bitar::chunker::config::FilterConfig', None, 'window_size'), ('bitar::chunker::config::FilterConfig', None, 'min_chunk_size'),
@@ -57,6 +58,8 @@ MUST_VALIDATE_FIELDS = {
     ('bitar::chunker::config::Config', 'FixedSize', '0'),
     # the recorded length of a hash sum indexes its fixed 64 byte array
     ('bitar::hashsum::HashSum', None, 'length'),
+    # what a chunk is identified by: zero makes every chunk the same chunk
+    ('bitar::archive::Archive', None, 'chunk_hash_length'),
 }
 SOURCE_ADT_PREFIX = 'bitar::chunk_dictionary::'
 
